@@ -195,7 +195,24 @@ def _gen_emulsion(rng):
     periodic = rng.random() < 0.5
     L = rng.choice([4.0, 10.0, 7.5])
     n = rng.randint(0, 9)
-    style = rng.choice(["uniform", "chain", "crowd", "dupes"])
+    style = rng.choice(["uniform", "chain", "crowd", "dupes", "satellite"])
+    if style == "satellite":
+        # big droplets (possibly overlapping) each with tiny satellites just outside their surface
+        drops = []
+        c = [rng.uniform(L / 3, 2 * L / 3) for _ in range(dim)]
+        for _ in range(rng.randint(1, 3)):
+            R = rng.uniform(0.8, 1.6)
+            p = [x + rng.uniform(-1.2, 1.2) for x in c]
+            drops.append((p, R))
+            for _ in range(rng.randint(0, 2)):
+                r = rng.uniform(0.02, 0.1)
+                u = [rng.gauss(0, 1) for _ in range(dim)]
+                nu = math.sqrt(sum(x * x for x in u)) or 1.0
+                gap = rng.uniform(0.01, 0.2)
+                drops.append(([x + (R + r + gap) * y / nu for x, y in zip(p, u)], r))
+        rng.shuffle(drops)
+        M = rng.choice([0, 0, 0.3, -0.3])
+        return dim, L, periodic, drops, M
     drops = []
     for i in range(n):
         if style == "chain" and drops:
@@ -394,7 +411,7 @@ def run(out: core.Outcome) -> None:
             else:
                 deviations += 1
     # ---- random float emulsions
-    n_random = 800 if out.tier == "quick" else 20000
+    n_random = 3000 if out.tier == "quick" else 40000
     seeds = [out.seed * 1000003 + i for i in range(n_random)]
     size = max(1, n_random // (core.NCPU * 2))
     with mp.get_context("fork").Pool(core.NCPU) as pool:
